@@ -45,7 +45,11 @@ def run_one(mod, run_seed, replay=None, lenient=False, keep_trace=False, variant
     info = None
     def body(s):
         try:
-            return mod.scenario(s)
+            try:
+                return mod.scenario(s)
+            except core.SimSpin:
+                who, frames = s.spin_info or ("driver", [])
+                raise SimBudget("cpu spin without yield point in task %s: %s" % (who, " < ".join(frames[:6])))
         except (SimDeadlock, SimBudget) as e:
             # classify while the tasks are still parked (their stacks are gone after shutdown)
             if hasattr(mod, "on_hang"):
